@@ -79,6 +79,27 @@ fn fill_table_at(host: u64, slot: usize, val: u64) {
     }
 }
 
+fn verdict(x: Result<RecursivePageTable, InvalidPageTable>) -> u8 {
+    match x {
+        Ok(_) => 1,
+        Err(InvalidPageTable::NotActive) => 2,
+        Err(InvalidPageTable::NotRecursive) => 3,
+    }
+}
+/// construct; switch the root; construct; switch back; construct — kept in a small function of its own so that the optimiser
+/// sees the whole sequence at once (what it may or may not carry across the root write is exactly what is being checked)
+#[inline(never)]
+fn root_switch_sequence(l4: u64, other: x86_64::structures::paging::PhysFrame, own: x86_64::structures::paging::PhysFrame) -> (u8, u8, u8) {
+    use x86_64::registers::control::Cr3;
+    let a = verdict(RecursivePageTable::new(unsafe { &mut *(l4 as *mut PageTable) }));
+    let (_, fl) = Cr3::read();
+    unsafe { Cr3::write(other, fl) };
+    let b = verdict(RecursivePageTable::new(unsafe { &mut *(l4 as *mut PageTable) }));
+    unsafe { Cr3::write(own, fl) };
+    let c = verdict(RecursivePageTable::new(unsafe { &mut *(l4 as *mut PageTable) }));
+    (a, b, c)
+}
+
 pub fn ctor(r: &mut Rep, ri: u16, pbase: u64) {
     simphys::init(View::Recursive(ri), pbase, 0);
     crate::simcpu::init();
@@ -227,18 +248,14 @@ pub fn ctor(r: &mut Rep, ri: u16, pbase: u64) {
             cpu().cr[3] = l4_phys;
             fill_table_at(l4, ri as usize, l4_phys | 3);
             cpu().cr3_write_store = l4 + 8 * ri as u64;
-            let res = run_fault(|| {
-                let code = |x: Result<RecursivePageTable, InvalidPageTable>| match x { Ok(_) => 1u8, Err(InvalidPageTable::NotActive) => 2, Err(InvalidPageTable::NotRecursive) => 3 };
-                let a = code(RecursivePageTable::new(unsafe { &mut *(l4 as *mut PageTable) }));
-                let (_, fl) = Cr3::read();
-                unsafe { Cr3::write(other, fl) };
-                let b = code(RecursivePageTable::new(unsafe { &mut *(l4 as *mut PageTable) }));
-                unsafe { Cr3::write(own, fl) };
-                let c = code(RecursivePageTable::new(unsafe { &mut *(l4 as *mut PageTable) }));
-                (a, b, c)
-            });
+            let res = run_fault(|| root_switch_sequence(std::hint::black_box(l4), other, own));
             cpu().cr3_write_store = 0;
             r.ev(true);
+            // and without the window following the root: the table keeps pointing at the first root
+            let res2 = run_fault(|| root_switch_sequence(std::hint::black_box(l4), other, own));
+            if res2 != Ok((1, 2, 1)) {
+                r.viol("C20|RecursivePageTable::new|verdict-does-not-follow-the-root-register-across-a-switch", &format!("ctorswitch {} {:#x} small-function", ri, pbase), &format!("{:?} expected (1, 2, 1) (1 = Ok, 2 = NotActive)", res2));
+            }
             if res != Ok((1, 1, 1)) {
                 r.viol("C20|RecursivePageTable::new|reads-the-table-as-it-was-before-a-root-switch", &format!("ctorswitch {} {:#x} window-follows-root", ri, pbase), &format!("{:?} expected (1, 1, 1) (1 = Ok, 2 = NotActive)", res));
             }
